@@ -20,3 +20,5 @@ func genLibraryOutput(r *Rng) string {
 	}
 	return out
 }
+
+func sprint(v interface{}) string { return fmtSprint(v) }
